@@ -82,6 +82,11 @@ finally:
     # restore the build state for the clean tree
     r5 = sh('cd %s && timeout 3000 ./check %s --tier quick' % (VDIR, P))
     meta['check_exit_on_clean_after'] = r5.returncode
+if skip_suite and os.path.exists(os.path.join(dst, 'meta.json')):   # carry over the suite result of the full evaluation
+    old = json.load(open(os.path.join(dst, 'meta.json')))
+    for k in ('suite_tail', 'suite_new_failures'):
+        if k in old and k not in meta:
+            meta[k] = old[k]
 os.makedirs(dst, exist_ok=True)
 for f in ('patch.diff', 'demo.py', 'notes.md'):
     if src != dst and os.path.exists(os.path.join(src, f)):
